@@ -937,6 +937,9 @@ func (self *Metadata) uncheckedReset() error {
 	if len(self.journalPath) > 0 {
 		dir, base := filepath.Split(self.journalFile())
 		paths, _ := util.Readdirnames(dir)
+		// The separator is part of the prefix, so that for example
+		// fork_a does not match the files of fork_ab.
+		base += "."
 		for _, p := range paths {
 			if strings.HasPrefix(p, base) {
 				os.Remove(path.Join(dir, p))
